@@ -150,6 +150,7 @@ def step : List String → String
       | none => "bad-op"
     | _, _ => "bad-op"
   | ["rt", st, magic, cmd, payload] => rtStep st magic cmd payload
+  | ["rtc", st, magic, cmd, _seed, payload] => rtStep st magic cmd payload
   | ["mrt", st, magic, _seed, _n, _mode, payload] => rtStep st magic "merkleblock" payload
   | _ => "bad-op"
 
